@@ -262,7 +262,13 @@ func body09(k c09case, progress bool) Body {
 			}
 			cur = cur[:0]
 		}
-		q.OnInput = func(ctx context.Context) error {
+		ended := false
+		onInput := func(ctx context.Context) error {
+			if ended {
+				// the source is exhausted (it said so): like an io.Reader at EOF it leaves the
+				// columns alone and reports the end again, however often it is asked
+				return io.EOF
+			}
 			op := ops[round]
 			round++
 			switch op {
@@ -315,6 +321,13 @@ func body09(k c09case, progress bool) Body {
 				return errCallback
 			}
 			return nil
+		}
+		q.OnInput = func(ctx context.Context) error {
+			err := onInput(ctx)
+			if err != nil {
+				ended = true
+			}
+			return err
 		}
 		schema := []refcol.BlockCol{Col(sc.name, sc.typ)}
 		if k.two {
@@ -423,7 +436,7 @@ func body09(k c09case, progress bool) Body {
 
 // C09 — streamed INSERT sends one faithful block per input round, then a terminator.
 func C09(c *vk.Ctx) {
-	c.Rule("all OnInput histories of <= n rounds (quick 3, thorough 4) over {append 1, append 3, Reset+append 2, overwrite every row in place, return nil unchanged, io.EOF with rows, Reset+io.EOF, Reset+wrapped io.EOF, other error, NEW column objects put into the input slots with 2 rows, with 1 row + io.EOF, empty + io.EOF} (each history is closed by Reset+io.EOF) x initial rows {0, 2; 30000 (a first block of 240 KB and more) for histories of <= 2 rounds over UInt64 / String / LowCardinality(String)} x column {UInt64, FixedString(4), String, LowCardinality(String), Array(String), Enum8 via ColEnum}, alone or next to a UInt64 column, x {plain, LZ4}; every case is one execution of the real Connect + Do on the default schedule (thorough: plus all schedules up to 1 preemption while the server sends Progress). Oracle: the blocks parsed from the client stream by the reference model equal the model's snapshots of the column contents at the start of each round, followed by exactly one empty block. distinct_nontrivial = cases.")
+	c.Rule("all OnInput histories of <= n rounds (quick 3, thorough 4) over {append 1, append 3, Reset+append 2, overwrite every row in place, return nil unchanged, io.EOF with rows, Reset+io.EOF, Reset+wrapped io.EOF, other error, NEW column objects put into the input slots with 2 rows, with 1 row + io.EOF, empty + io.EOF} (each history is closed by Reset+io.EOF; a callback that has reported the end or an error answers any further call with io.EOF and leaves the columns alone) x initial rows {0, 2; 30000 (a first block of 240 KB and more) for histories of <= 2 rounds over UInt64 / String / LowCardinality(String)} x column {UInt64, FixedString(4), String, LowCardinality(String), Array(String), Enum8 via ColEnum}, alone or next to a UInt64 column, x {plain, LZ4}; every case is one execution of the real Connect + Do on the default schedule (thorough: plus all schedules up to 1 preemption while the server sends Progress). Oracle: the blocks parsed from the client stream by the reference model equal the model's snapshots of the column contents at the start of each round, followed by exactly one empty block. distinct_nontrivial = cases.")
 	quick := c.Quick()
 	maxLen := 3
 	if !quick {
